@@ -36,6 +36,9 @@ CONSTS = [0, 1, 2, 3, 5, 15, 16, 127, 128, 255, 256, 257, 1000, 4096, 32767, 327
 PAIRS = [(5, 2), (255, 1), (256, 1), (32767, 1), (65535, 1), (2, 0), (1000, 3), (128, 2), (16, 16)]
 
 
+NAME_PAIRS = [("BPCRT", "XPCR"), ("AB", "XY"), ("PCRTAB", "DPR"), ("SPCRT", "PCX")]
+
+
 def enumerated(tier, seed):
     pairs = PAIRS[:1] if tier == "quick" else PAIRS[:6]
     n = 0
@@ -46,6 +49,10 @@ def enumerated(tier, seed):
                     for (a, b) in pairs:
                         n += 1
                         yield dict(pos=pos, op=op, l=dict(k=lk, v=a, sp=n % 5), r=dict(k=rk, v=b, sp=(n // 5) % 5), org=ORGS[n % 5], single=False)
+                        if ("lb" in (lk, rk) or "la" in (lk, rk)) and op in "+-" and pos in ("imm16", "mem", "extind", "idx", "pcr", "fdb", "fdblist"):
+                            # the same with labels whose names look like registers / contain PCR: a name is a name
+                            yield dict(pos=pos, op=op, l=dict(k=lk, v=a, sp=n % 5), r=dict(k=rk, v=b, sp=(n // 5) % 5), org=ORGS[n % 5], single=False,
+                                       names=NAME_PAIRS[n % len(NAME_PAIRS)])
         for lk in TERM_KINDS:
             for v in (0, 5, 255, 256, 4660, 65535):
                 yield dict(pos=pos, op="+", l=dict(k=lk, v=v, sp=v % 5), r=dict(k="dec", v=0, sp=0), org=ORGS[v % 5], single=True)
@@ -235,6 +242,8 @@ def render(case):
     if case["pos"] == "multi":
         return dict(case=case, source=[l.rstrip("\n") for l in build_multi(case)[0]])
     lines, row, terms = build(case)
+    for old, new in (zip(("ZZB", "ZZA"), case["names"]) if case.get("names") else ()):
+        lines = [l.replace(old, new) for l in lines]
     return dict(case=case, source=[l.rstrip("\n") for l in lines])
 
 
@@ -263,6 +272,9 @@ def execute(case):
         return execute_multi(case)
     pos = case["pos"]
     lines, row, terms = build(case)
+    rename = dict(zip(("ZZB", "ZZA"), case["names"])) if case.get("names") else {}
+    for old, new in rename.items():
+        lines = [l.replace(old, new) for l in lines]
     kinds = [t[1] for t in terms]
     labels = ["pos:" + pos, "op:" + ("single" if case["single"] else case["op"])]
     has_symbol = any(not t[0][0].isdigit() and t[0][0] != "$" for t in terms)
@@ -306,7 +318,8 @@ def execute(case):
         return viol("{!r} rejected ({}) although its value {} is representable.".format(
             src, out.message, sorted(set(c for c in candidates if c is not None))) + ctx,
             fid=fid + "rejected:" + (out.message or "").split("]")[-1].strip()[:30], labels=labels)
-    syms = dict(out.symbols)
+    back = dict((new, old) for old, new in rename.items())
+    syms = dict((back.get(k, k), v) for k, v in out.symbols)
     lb, la = syms.get("ZZB"), syms.get("ZZA")
     if lb is None or la is None:
         return viol("helper labels missing from the symbol table." + ctx, fid=fid + "symbols", labels=labels)
